@@ -21,18 +21,36 @@ CHECKS = {
  "C06": ("reference-model monitor: Pearson / Kendall tau-a / centre-of-gravity of the current window from the recorded history in exact arithmetic; negation and order-only (strictly increasing maps) relations",
          "Held on the executions explored: CTI, NET, CoG x N 3..64 x 12 input classes + partially shuffled streams.",
          "CTI at the exact scalar compared to 1e-12 (irrational root); f64 steps inside the cancellation envelope left to C07/C16"),
+ "C07": ("range automaton on every Some output (f64, f32 in thorough; 16 ulps of the bound), Min/Max sandwich with real Min/Max views, Drawdown monotonicity; violations classified by the exact oracle on the failing window (predicates of the known findings)",
+         "Held on the executions explored except for four recorded known findings (PFE's defining formula, Vsct residue, Sma/Alma running-sum residue): 16 documented ranges + sandwich + Drawdown x N 2..64 (+257) x 14 adversarial input classes, a quarter rescaled over 2^60, a third off the dyadic grid, streams to 1e5.",
+         "'a few ulps' = 16 ulps of the bound; known findings are matched on (view, clause, exact-oracle predicate)"),
  "C08": ("readiness automaton per node (Taps on every node of single views and chains) + documented warm-up table + Script children that deliver nothing; dev and release profiles, three scalars",
          "Held on the executions explored: every view x N grid x degenerate input classes, chains, long runs (1e4 quick / 1e6 thorough updates). 'For ever' is restated as no relapse and no non-finite value within those run lengths; no finite run decides the unbounded claim.",
          "a node is only judged while its own inputs stayed finite, in domain and below 2^40; a panic of the code under test ends the trial (C15 reports it)"),
+ "C09": ("bounded-input stress runs against a length-independent bound derived from the reference model (finite, inside the bound, no growth from the first 4L to 16L updates) and a two-instance fading-memory relation (different prefixes, common tail, agreement to 1e-6 from the reference settle length on)",
+         "Held on the executions explored: nine recursive views, all N 1..9 and a grid to 64 (+100, 1000), inputs incl. square waves through the resonance region; runs of L/4L/16L with L = 1e4 (quick) / 2e5 (thorough). Bounded restatement of an unbounded-time claim: no finite run decides 'however long'.",
+         "bounds are sound but loose (forcing x l1 bound of the recursion): they catch instability and growth, not gain errors (C11 owns those)"),
+ "C10": ("relational monitor over three executions x, y, a x + b y (exact scalar: equality; f64: envelope), incl. streams constructed so that the combined input/state is exactly 0; constant-input clauses with the reference settle length",
+         "Held on the executions explored: eight linear views x parameter grids x N grid, a, b incl. 0 and negatives.",
+         "second-order filters at the exact scalar limited to 100 steps"),
  "C11": ("reference-model monitor: batch re-evaluation of the difference equations (closed-form coefficients from the statement) from the complete input history, compared after every update at f64 (long streams) and at the exact scalar (short streams; hold branches exact), tolerance 1e-4 of natural scale",
          "Held on the executions explored: nine views x N from each minimum to 64 + {200, 1000} x gamma / smoother-length / MA grids x 10 input classes.",
          "crate conventions as named in the statement; 1.414 pi == 4.4422; f64 ratio steps with the reference denominator in rounding noise are skipped (counted)"),
+ "C12": ("relational monitor over two executions x and a x + b / a x / -x for 37 (view, relation) pairs: exact scalar with arbitrary rational a, b (equality), f64 with a = 2^k and dyadic b (bit identity), f64 general (tolerance on well-conditioned windows)",
+         "Held on the executions explored: all views of the statement's three lists x N grid x 8 input classes with ties.",
+         "flat windows exempt only for Vst (returns the value) and Rsi under negation (returns 100)"),
+ "C13": ("reference-model monitor: exact integer-scaled running sums (i128), running peak and largest relative decline, ln ratio; exact scalar (equality) and f64 at every step of streams of L, 4L, 16L values with one tolerance",
+         "Held on the executions explored: three views x seven stream shapes (new peaks after deeper troughs, equal peaks, monotone, flats, three decades), 16L ~ 1e5 (quick) / 1e7 (thorough).",
+         "positive inputs k/64 in [1,1000]"),
  "C14": ("pointwise oracle over Script children (outputs dictated), bit-exact comparison after every update; two-history statelessness relation",
          "Held on the executions explored (all nine combinators x f64/f32/exact rational x seeded script pairs incl. zeros, -0, clip ties, denormals, None prefixes).",
          "children never relapse to None; libm tanh of the harness build is the one the crate reaches"),
  "C15": ("panic trap (catch_unwind + recording panic hook) around construction and every update()/last(), executed under rustc's run-time instrumentation (dev profile: debug assertions + overflow checks) and in the release profile",
          "Held on the executions explored: every view x full secondary-parameter grid x N (1..64 in thorough) x 18 input classes x stream lengths shorter than / about / far beyond the window, two-level chains with in-domain inner outputs, f64 and f32.",
          "constructor panics count as 'constructor rejects N'; inputs bounded by 2^20; one known finding (Alma at f32 with an underflowing first kernel weight)"),
+ "C16": ("f64 (and f32) executions compared with exact arithmetic: exact batch oracle over the recent inputs for windowed views, fresh-restart f64 instance on the last S(N) inputs for recursive views; drift clause on long three-decade streams at 200+ checkpoints, flat clause after volatile prefixes",
+         "Held on the executions explored except for the recorded Vst/Vsct known findings: 25 views x N grid, streams of 1e5 (quick) / 1e6 (thorough) values, dyadic and non-dyadic grids, flat values incl. 0.1 and 1/3.",
+         "natural scale per output class as stated in the evidence; WelfordRolling's drift is decided by C13"),
  "C17": ("relational runtime monitor: twin instances, extra last() calls, clones with divergent continuations, twin on another thread; bit identity",
          "Held on the executions explored: all views and random chains, random clone points, three interleavings of original and clone.",
          "Add has no Clone (clone clause vacuous there); release profile"),
